@@ -39,11 +39,11 @@ func (prop) Cases(tier string) int {
 func (prop) Info() fw.Info {
 	return fw.Info{
 		Level: "fault_enumeration",
-		Rule: "case i = import graph (all digraphs on 1-2 files first, then random graphs on 3..6 files, some with an OpenAPI-2 .yaml leaf imported `as App` and a compiled-model .pb.json leaf; the last 40 (quick) / 600 (thorough) cases are depth-race graphs — a file reachable through a short and a long path with a tail of imports — compiled with a depth limit that cuts the tail along the long path only, faults placed on files nearer than the limit) x fault sets: every single reachable file and PRNG-chosen pairs/triples x fault kinds {read error, content truncated inside a keyword, syntax-error line, foreign content matching no known format, broken JSON in .pb.json} x delivery points chosen through the schedule controller {faulted read released as early as possible, as late as possible, PRNG positions}. Oracle per execution: Parse returns (nil module, non-nil error); the error text names a faulted file that the reader log shows was requested; exit-code class 1 when only reads fail and 2 when only content is bad; no panic, no hang, every collectSpecs invocation joined; the same graph without faults compiles; race detector silent. Non-trivial: >= 2 files reachable and the faulted file is not the root, or >= 2 faults; distinct by graph+fault plan.",
+		Rule: "case i = import graph (all digraphs on 1-2 files first, then random graphs on 3..6 files, some with an OpenAPI-2 .yaml leaf imported `as App` and a compiled-model .pb.json leaf; the last 40 (quick) / 600 (thorough) cases are depth-race graphs — a file reachable through a short and a long path with a tail of imports — compiled with a depth limit that cuts the tail along the long path only, faults placed on files nearer than the limit) x fault sets: every single reachable file, PRNG-chosen pairs/triples and, on graphs with >= 5 reachable files (every fifth random graph has 7-9 files, every fifth is a fan: the root imports 5-6 files directly), sets of 4-7 files other than the root, mostly unreadable x fault kinds {read error, content truncated inside a keyword, syntax-error line, foreign content matching no known format, broken JSON in .pb.json} x delivery points chosen through the schedule controller {faulted read released as early as possible, as late as possible, PRNG positions}. Oracle per execution: Parse returns (nil module, non-nil error); the error text names a faulted file that the reader log shows was requested; exit-code class 1 when only reads fail and 2 when only content is bad; no panic, no hang, every collectSpecs invocation joined; the same graph without faults compiles; race detector silent. Non-trivial: >= 2 files reachable and the faulted file is not the root, or >= 2 faults; distinct by graph+fault plan.",
 		Assumptions: []string{"errgroup.Wait returns the first error only: naming any one faulted-and-requested file satisfies the property", "remote imports not generated"},
 		Race:        true,
 		CaseTimeout: 600,
-		CountFloors: map[string]int{"fault_executions": 1000, "fault_points": 300, "fault_executions_with_depth_limit": 100},
+		CountFloors: map[string]int{"fault_executions": 1000, "fault_points": 300, "fault_executions_with_depth_limit": 100, "plans_with_4_or_more_faults": 10},
 		SetFloors:   map[string]int{"fault_kinds": 5, "delivery": 3},
 	}
 }
@@ -107,6 +107,14 @@ func (prop) Run(ctx *fw.Ctx, i int) fw.Result {
 		g = sched.FromBits(1, uint64(i), r)
 	case i < 18:
 		g = sched.FromBits(2, uint64(i-2), r)
+	case i%5 == 0:
+		// wide graphs: room for many simultaneous faults
+		g = sched.Random(r.Range(7, 9), r)
+		res.Add("graph_families", "wide")
+	case i%5 == 1:
+		// the root imports five or six files directly
+		g = sched.Fan(r)
+		res.Add("graph_families", "fan")
 	default:
 		g = sched.Random(r.Range(3, 6), r)
 	}
@@ -187,6 +195,33 @@ func (prop) Run(ctx *fw.Ctx, i int) fw.Result {
 			fs = append(fs, fault{reach[j], kindsFor(g, reach[j], r)})
 		}
 		plans = append(plans, fs)
+	}
+	// many simultaneous faults (4..7 files other than the root, mostly unreadable ones)
+	if len(reach) >= 5 {
+		many := 1
+		if ctx.Thorough() {
+			many = 3
+		}
+		for k := 0; k < many; k++ {
+			var others []int
+			for _, f := range reach {
+				if f != 0 {
+					others = append(others, f)
+				}
+			}
+			n := r.Range(4, min(7, len(others)))
+			p := r.Perm(len(others))
+			var fs []fault
+			for _, j := range p[:n] {
+				kind := "read-error"
+				if r.Chance(1, 3) {
+					kind = kindsFor(g, others[j], r)
+				}
+				fs = append(fs, fault{others[j], kind})
+			}
+			plans = append(plans, fs)
+			res.Count("plans_with_4_or_more_faults", 1)
+		}
 	}
 	deliveries := []string{"early", "late", "random", "random"}
 	if ctx.Thorough() {
